@@ -41,24 +41,24 @@ const twoH = int64(7200000)
 // ---------------------------------------------------------------- generated input
 
 type line struct {
-	ser  int     // index into gcase.series; -1 = raw text line
-	ms   int64   // intended timestamp
-	noTs bool    // print without timestamp
-	val  string  // value text
-	raw  string  // for ser == -1
-	tsFm int     // timestamp format
+	ser  int    // index into gcase.series; -1 = raw text line
+	ms   int64  // intended timestamp
+	noTs bool   // print without timestamp
+	val  string // value text
+	raw  string // for ser == -1
+	tsFm int    // timestamp format
 }
 
 type gcase struct {
-	series  []string // rendered `name{l="v",...}` per series
-	lines   []line
-	maxDur  string            // --max-block-duration value ("" = flag omitted)
+	series   []string // rendered `name{l="v",...}` per series
+	lines    []line
+	maxDur   string // --max-block-duration value ("" = flag omitted)
 	maxDurMs int64
-	custom  map[string]string // --label
-	quiet   bool
-	noEOF   bool
-	gen     string // generator stream name
-	corpus  string
+	custom   map[string]string // --label
+	quiet    bool
+	noEOF    bool
+	gen      string // generator stream name
+	corpus   string
 }
 
 func fmtTs(ms int64, mode int) string {
@@ -485,7 +485,7 @@ func corpus() []*gcase {
 		fixed(s, "", 0, "only-negative", L(0, -1, "1")),
 		fixed(s, "", 0, "negative-on-boundary", L(0, -twoH, "1"), L(1, -1, "2"), L(0, 0, "3")),
 		fixed(s, "", 0, "negative-several-blocks", L(0, -3*twoH-1, "1"), L(1, -2*twoH, "NaN"), L(0, -twoH+1, "2"), L(0, twoH, "+Inf")),
-		fixed(s, "6h", 3 * twoH, "negative-6h", L(0, -3*twoH-1, "1"), L(0, -1, "2"), L(0, 3*twoH-1, "3"), L(0, 3*twoH, "4")),
+		fixed(s, "6h", 3*twoH, "negative-6h", L(0, -3*twoH-1, "1"), L(0, -1, "2"), L(0, 3*twoH-1, "3"), L(0, 3*twoH, "4")),
 		fixed(s, "", 0, "boundaries", L(0, 0, "1"), L(0, twoH-1, "2"), L(0, twoH, "3"), L(1, 2*twoH-1, "4"), L(1, 2*twoH, "5")),
 		fixed(s, "", 0, "gap-of-empty-ranges", L(0, 5, "1"), L(0, 9*twoH+7, "2"), L(1, 20*twoH, "3")),
 		fixed(s, "", 0, "empty-input"),
@@ -751,15 +751,15 @@ func blocksTerm(bl []oblock) string {
 }
 
 type desc struct {
-	Shape   string   `json:"shape"`
-	Gen     string   `json:"gen"`
-	Corpus  string   `json:"corpus,omitempty"`
-	Args    string   `json:"args"`
-	Text    string   `json:"text,omitempty"`
-	Obs     string   `json:"obs"`
-	Stderr  string   `json:"stderr,omitempty"`
-	Blocks  [][3]int64 `json:"blocks"` // mint, maxt, numSamples
-	Err     string   `json:"err,omitempty"`
+	Shape  string     `json:"shape"`
+	Gen    string     `json:"gen"`
+	Corpus string     `json:"corpus,omitempty"`
+	Args   string     `json:"args"`
+	Text   string     `json:"text,omitempty"`
+	Obs    string     `json:"obs"`
+	Stderr string     `json:"stderr,omitempty"`
+	Blocks [][3]int64 `json:"blocks"` // mint, maxt, numSamples
+	Err    string     `json:"err,omitempty"`
 }
 
 func floorDiv(a, d int64) int64 {
@@ -782,7 +782,7 @@ func main() {
 		os.Exit(2)
 	}
 	meta := gallina.NewMeta("C50", f.Seed, f.Tier)
-	meta.Rule = "corpus of fixed reproducers + seeded generated OpenMetrics texts (1-5 series, or 200-800 series in the `big` cases; timestamps spread over 1-14 block ranges of the effective duration around zero and far from it, boundary heavy; layouts grouped / interleaved / time-sorted / windows-reversed / exact-duplicates / shuffled; optional conflicting duplicate, missing timestamps, malformed text, --max-block-duration, --label); each text goes through the real promtool binary; non-trivial = accepted input whose samples fall in at least two block windows, or rejected input with at least two samples; distinct by (args, text)"
+	meta.Rule = "corpus of fixed reproducers + seeded generated OpenMetrics texts (1-5 series, or 200-800 series in the `big` cases, or - thorough tier - 2600-3500 series with 2 samples each in one window so that a block needs several 5000-sample appender batches, plus 4 fixed batch-boundary inputs; timestamps spread over 1-14 block ranges of the effective duration around zero and far from it, boundary heavy; layouts grouped / interleaved / time-sorted / windows-reversed / exact-duplicates / shuffled; optional conflicting duplicate, missing timestamps, malformed text, --max-block-duration, --label); each text goes through the real promtool binary; non-trivial = accepted input whose samples fall in at least two block windows, or rejected input with at least two samples; distinct by (args, text)"
 	cf := &gallina.CaseFile{Dir: f.Out, Type: "case", PerShard: 60,
 		Preamble: "From Coq Require Import List ZArith.\nFrom Verif Require Import lib.Int64 model.Backfill corr.CorrC50.\nImport ListNotations.\nOpen Scope Z_scope.\n",
 		Footer:   gallina.StdFooter}
